@@ -532,8 +532,8 @@ func c14Items(cp *corpus, tier string, seed int64) (good []shapeResult, vars []c
 	for i := range good {
 		b := &good[i]
 		depth := b.item.shape.depth()
-		for _, mode := range []int{1, 2, 3, 7} {
-			mn := map[int]string{1: "excluded-fields", 2: "embedded", 3: "multiname", 7: "excluded-embedded"}[mode]
+		for _, mode := range []int{1, 2, 3, 7, 11} {
+			mn := map[int]string{1: "excluded-fields", 2: "embedded", 3: "multiname", 7: "excluded-embedded", 11: "multiname-hidden-first"}[mode]
 			levels := []int{-1}
 			for l := 0; l <= depth; l++ {
 				levels = append(levels, l)
@@ -541,7 +541,7 @@ func c14Items(cp *corpus, tier string, seed int64) (good []shapeResult, vars []c
 			if depth == 0 {
 				levels = []int{-1}
 			}
-			if mode == 7 {
+			if mode == 7 || mode == 11 {
 				// root struct only: nested structs are built with positional literals (D9, known), which any extra field breaks
 				levels = []int{0}
 			}
